@@ -267,6 +267,18 @@ package dispatcher
 //@                vcc(mk("core.CrossChainID", protoByName(req.SourceProtocolId), req.SourceCounterpartyId)) &&
 //@                vcc(mk("core.CrossChainID", protoByName(req.DestinationProtocolId), req.DestinationCounterpartyId)) && qNonZero(q, qk(req)) ==> err == nil
 
+// The direct counts query, likewise: a successful answer is the stored count of exactly the requested route and that
+// count is non-zero; a well-formed request for a route with a non-zero count succeeds.
+//@ macro qck(req) = quad4(protoByName(req.SourceProtocolId), req.SourceCounterpartyId, protoByName(req.DestinationProtocolId), req.DestinationCounterpartyId)
+//@ func (q queryServer) DispatchedCounts(ctx, req) (resp, err)
+//@   requires[inv] q.Dispatcher != nil
+//@   ensures[C13] err == nil ==> req != nil && resp != nil && len(resp.Counts) == 1 && resp.Counts[0] != nil && resp.Counts[0].Count == cntOf(q.Dispatcher, qck(req)) && resp.Counts[0].Count > 0
+//@   ensures[C13] err == nil ==> resp.Counts[0].SourceId != nil && deref(resp.Counts[0].SourceId).ProtocolId == protoByName(req.SourceProtocolId) && deref(resp.Counts[0].SourceId).CounterpartyId == req.SourceCounterpartyId &&
+//@                resp.Counts[0].DestinationId != nil && deref(resp.Counts[0].DestinationId).ProtocolId == protoByName(req.DestinationProtocolId) && deref(resp.Counts[0].DestinationId).CounterpartyId == req.DestinationCounterpartyId
+//@   ensures[C13] req != nil && protoNameOK(req.SourceProtocolId) && protoNameOK(req.DestinationProtocolId) &&
+//@                vcc(mk("core.CrossChainID", protoByName(req.SourceProtocolId), req.SourceCounterpartyId)) &&
+//@                vcc(mk("core.CrossChainID", protoByName(req.DestinationProtocolId), req.DestinationCounterpartyId)) && cntOf(q.Dispatcher, qck(req)) > 0 ==> err == nil
+
 // ---------------------------------------------------------------------------------------------
 // Export of the totals (C17): the exported entries are the enumeration of the map, each rebuilt from
 // its key - source identifier from the first two components, destination identifier parsed back from the
